@@ -42,6 +42,11 @@ structure VIndex where
 def VIndex.toVecIx (ix : VIndex) (opt : Nat := 0) : VecIx :=
   { dim := ix.dim, metric := ix.metric, opt := opt, vecs := ix.content.map (·.2) }
 
+/-- number the vectors of an id-free index by position (any assignment of distinct ids would
+    do; the engine's ids are not observable through `search`) -/
+def VIndex.ofVecIx (v : VecIx) : VIndex :=
+  { dim := v.dim, metric := v.metric, content := v.vecs.zipIdx.map (fun p => (p.2, p.1)) }
+
 /-- The engine, contract only: -/
 structure Engine where
   /-- exact search among all ids not in `excl`: returns (id, score) pairs -/
@@ -102,7 +107,7 @@ def EngineOK (E : Engine) (ix : VIndex) : Prop :=
 
 def insertRes (metric : Nat) (p : Nat × Int) : List (Nat × Int) → List (Nat × Int)
   | [] => [p]
-  | a :: r => if vbetter metric p.2 a.2 then p :: a :: r else a :: insertRes metric p r
+  | a :: r => if vbetter metric a.2 p.2 then a :: insertRes metric p r else p :: a :: r
 
 def sortRes (metric : Nat) (l : List (Nat × Int)) : List (Nat × Int) :=
   l.foldr (insertRes metric) []
@@ -165,13 +170,13 @@ def eligArg (numDocs : Nat) (eligible : List Nat) : Option (List Nat) :=
 
 /-! ### The postings list as the iterator sees it (roaring64 of codes, ascending) -/
 
-def insertCode (c : Nat) : List Nat → List Nat
+def insCode (c : Nat) : List Nat → List Nat
   | [] => [c]
-  | a :: r => if c < a then c :: a :: r else if c = a then a :: r else a :: insertCode c r
+  | a :: r => if c < a then c :: a :: r else if c = a then a :: r else a :: insCode c r
 
 /-- the bitmap's content in iteration order; `bits` = `Float32bits` of the score -/
 def postingsCodes (bits : Int → Nat) (hits : List VHit) : List Nat :=
-  hits.foldr (fun h acc => insertCode (Gen.getVectorCode h.doc (bits h.score)) acc) []
+  hits.foldr (fun h acc => insCode (Gen.getVectorCode h.doc (bits h.score)) acc) []
 
 /-- `nextAtOrAfter` on the remaining codes: `AdvanceIfNeeded(getVectorCode(target, 0))`, then
     `Next()`.  Returns the posting and the codes still ahead. -/
